@@ -24,6 +24,7 @@ type Case struct {
 	Known     []string    `json:"known"`
 	FindingID string      `json:"finding_id"`
 	Thorough  bool        `json:"thorough"`
+	Free      bool        `json:"free"` // ignore the schedule: free-running goroutines (race detector build)
 }
 
 type Result struct {
@@ -43,7 +44,7 @@ func runCase(c Case) (res Result) {
 		res.Msg = "unknown harness " + c.Harness
 		return
 	}
-	r := &sym.Replay{Inputs: c.Inputs, Known: map[string]bool{}, FindingID: c.FindingID, Thorough: c.Thorough}
+	r := &sym.Replay{Inputs: c.Inputs, Known: map[string]bool{}, FindingID: c.FindingID, Thorough: c.Thorough, Free: c.Free}
 	for _, k := range c.Known {
 		r.Known[k] = true
 	}
